@@ -90,7 +90,9 @@ def closed_symmetric(gfa, removed=()):
             tot = len(t.all_references)
         except Exception:
             tot = pub
-        if t.record_type in ("S", "L", "E", "O", "U") and pub != tot:
+        # (a U line can only be reached from U lines by the grammar; an O group listing a set is not a valid
+        # document and leaves a 'paths' entry for which U has no public collection)
+        if t.record_type in ("S", "L", "E", "O") and pub != tot:
             raise Bad("coll-mismatch", "%r: %d back-references in public collections, %d in all_references" %
                       (ob.line_text(t), pub, tot), [_rt(t)])
     for h in removed:
